@@ -343,7 +343,7 @@ def _wants_edits(info, i):
 
 def _wants_tree_edits(info, i):
     # tree-level edits do not depend on the body: apply them to corpus programs and to every 40th program
-    return info.ident.startswith("corpus:") or i % 40 == 0
+    return info.ident.startswith("corpus:") or i % (120 if _TIER == "quick" else 40) == 0
 
 
 def run(tier, seed):
@@ -376,7 +376,7 @@ def run(tier, seed):
         "exhaustive": True,
         "rule": "(i) every body of the tier grammar that M9 classifies invalid; (ii) for every valid program every unit-level edit "
         "of the catalogue at every node / insertion site (deduplicated by edited XML), judged when M9 classifies the edited "
-        "unit invalid; tree-level edits on corpus programs and every 40th program; each generator run on a distinct "
+        "unit invalid; tree-level edits on corpus programs and every 120th (quick) / 40th (thorough) program; each generator run on a distinct "
         "ill-formed tree is one case",
         "samples": samples[:3],
     }
